@@ -23,6 +23,10 @@
      "NoCleanUpOnRetryAbort"  doRetry's exits for a retry that cannot start (deadline passed, no host) skip cleanUp().
                               Harmful only together with "DropRetryStateWithoutRelease" (the pinned code): since the
                               repair the dropped retry state releases what it holds, so this alone breaks no invariant
+     "StaleWakeEndsRequest"  waitNotify takes ANY token for news: OnResetStream raises its flag first and sends the token
+                             later (two steps); a worker that acted on the flag in a processError of its own and drained
+                             the slot before the token arrives finds the token in its NEXT wait, sees nothing pending and
+                             walks the response path with no response: no reply, no clean-up
      "DropRetryStateWithoutRelease"  processError drops the retry state for a pending local reply without releasing
                               the retries resource: a reset taken in the same pass (e.g. the previous attempt's per-try
                               callback completing right after doRetry gave up) has just admitted another retry, whose
@@ -52,20 +56,27 @@ variables
   respHdr = "none",                        \* response waiting to be sent downstream: none | ok | 5xx | hijack
   replies = 0, attempts = 0, gauge = 1,
   loopI = 0, phase = "send", err = FALSE, clientGone = FALSE,
-  rheld = 0;                               \* units of the cluster's retries resource this request holds (retryState.retryCounted)
+  rheld = 0,                               \* units of the cluster's retries resource this request holds (retryState.retryCounted)
+  npend = 0;                               \* tokens on their way: OnResetStream has raised its flag, sendNotify() not yet run
 
 define
   Retryable(r) == r \in {"connfail", "pertry", "close"}
   ProcessDone == upDone \/ dsReset = 1 \/ upReset = 1
   StopT(t) == IF t = "armed" THEN "off" ELSE t
+  \* what a woken worker finds when somebody really had news for it
+  News == cleaned = 1 \/ upReset = 1 \/ dsReset = 1 \/ direct \/ upDone \/ respHdr # "none"
 end define;
 
 \* types.StreamEventListener.OnResetStream of the upstream request `a`
-macro OnUpReset(a, r) begin
+\* Called from a timer / upstream goroutine the token follows the flag in a step of its own (process notifier); called by
+\* the worker itself (pool failure inside appendHeaders) flag and token are one step of that goroutine.
+macro OnUpReset(a, r, own) begin
   if ~setupRetry[a] /\ upReset = 0 then
-    upReset := 1; reason := r; notify := 1;
+    upReset := 1; reason := r;
+    if own then notify := 1; else npend := npend + 1; end if;
   end if;
 end macro;
+
 
 macro CleanUp() begin
   gt := StopT(gt); pt := StopT(pt);
@@ -98,7 +109,7 @@ Send:                                               \* upstreamRequest.appendHea
     with b \in Behaviours do
       attempts := attempts + 1;
       if b = "connfail" then
-        OnUpReset(cur, "connfail");
+        OnUpReset(cur, "connfail", TRUE);
       else
         beh[cur] := b;
       end if;
@@ -113,6 +124,7 @@ Arm:                                                \* onUpstreamRequestSent / s
 Wait:                                               \* ds.wait: waitNotify blocks on the 1-slot channel
   await notify = 1;
   notify := 0;
+  if ~News /\ "StaleWakeEndsRequest" \notin Defects then goto Wait; end if;   \* a token without news: keep waiting
 Woken:                                              \* ds.woken
   retNext := "upfilter";
   goto PE;
@@ -251,7 +263,7 @@ GFire:  await gt = "armed" \/ pc["w"] \in {"Exit", "FellOut", "Done"};        \*
 GCas:   if cleaned = 1 \/ urr = 1 then gt := "off"; goto GDone;       \* CAS(upstreamResponseReceived, 0, 1)
         else urr := 1; gt := "act"; end if;
 GAct:   if beh[cur] \in Behaviours then beh[cur] := "reset"; end if;   \* ds.gtimer.cas: onResponseTimeout
-        OnUpReset(cur, "global");
+        OnUpReset(cur, "global", FALSE);
         gt := "off";
 GDone:  skip;
 end process;
@@ -264,7 +276,7 @@ PCas:   if cleaned = 1 \/ urr = 1 then pt := "off"; goto PAgain;
         else urr := 1; pt := "act"; end if;
 PAct:   if ~respStarted then                                          \* ds.ptimer.cas: onPerReqTimeout
           if beh[cur] \in Behaviours then beh[cur] := "reset"; end if;
-          OnUpReset(cur, "pertry");
+          OnUpReset(cur, "pertry", FALSE);
         end if;
         pt := "off";
 PAgain: goto PFire;                                                   \* re-armed by the next attempt
@@ -291,10 +303,17 @@ UIdle:
     with a \in { x \in 1..MaxA : beh[x] = "close" /\ ~answered[x] } do ua := a; end with;
     answered[ua] := TRUE;
   UReset:                                           \* us.reset
-    OnUpReset(ua, "close");
+    OnUpReset(ua, "close", FALSE);
     goto UIdle;
   end either;
 UDone: skip;
+end process;
+
+\* the second half of OnResetStream on a foreign goroutine: sendNotify()
+fair process notifier = "n"
+begin
+NLoop: await npend > 0 \/ pc["w"] \in {"Exit", "FellOut", "Done"};
+       if npend > 0 then npend := npend - 1; notify := 1; goto NLoop; end if;
 end process;
 
 process client = "c"
@@ -309,21 +328,23 @@ end algorithm; *)
 VARIABLES pc, urr, cleaned, dsReset, upReset, reason, direct, respStarted, 
           upDone, notify, cur, setupRetry, beh, answered, remaining, rsSet, 
           gt, pt, deadlinePassed, respHdr, replies, attempts, gauge, loopI, 
-          phase, err, clientGone, rheld
+          phase, err, clientGone, rheld, npend
 
 (* define statement *)
 Retryable(r) == r \in {"connfail", "pertry", "close"}
 ProcessDone == upDone \/ dsReset = 1 \/ upReset = 1
 StopT(t) == IF t = "armed" THEN "off" ELSE t
 
+News == cleaned = 1 \/ upReset = 1 \/ dsReset = 1 \/ direct \/ upDone \/ respHdr # "none"
+
 VARIABLES retNext, ua
 
 vars == << pc, urr, cleaned, dsReset, upReset, reason, direct, respStarted, 
            upDone, notify, cur, setupRetry, beh, answered, remaining, rsSet, 
            gt, pt, deadlinePassed, respHdr, replies, attempts, gauge, loopI, 
-           phase, err, clientGone, rheld, retNext, ua >>
+           phase, err, clientGone, rheld, npend, retNext, ua >>
 
-ProcSet == {"w"} \cup {"g"} \cup {"p"} \cup {"u"} \cup {"c"}
+ProcSet == {"w"} \cup {"g"} \cup {"p"} \cup {"u"} \cup {"n"} \cup {"c"}
 
 Init == (* Global variables *)
         /\ urr = 0
@@ -353,6 +374,7 @@ Init == (* Global variables *)
         /\ err = FALSE
         /\ clientGone = FALSE
         /\ rheld = 0
+        /\ npend = 0
         (* Process worker *)
         /\ retNext = "none"
         (* Process upstream *)
@@ -361,6 +383,7 @@ Init == (* Global variables *)
                                         [] self = "g" -> "GFire"
                                         [] self = "p" -> "PFire"
                                         [] self = "u" -> "UIdle"
+                                        [] self = "n" -> "NLoop"
                                         [] self = "c" -> "CGone"]
 
 LoopTop == /\ pc["w"] = "LoopTop"
@@ -371,7 +394,7 @@ LoopTop == /\ pc["w"] = "LoopTop"
                            respStarted, upDone, notify, cur, setupRetry, beh, 
                            answered, remaining, rsSet, gt, pt, deadlinePassed, 
                            respHdr, replies, attempts, gauge, loopI, phase, 
-                           err, clientGone, rheld, retNext, ua >>
+                           err, clientGone, rheld, npend, retNext, ua >>
 
 L1 == /\ pc["w"] = "L1"
       /\ IF phase # "retry" \/ "LoopCountsRetries" \in Defects
@@ -390,7 +413,7 @@ L1 == /\ pc["w"] = "L1"
                       respStarted, upDone, cur, setupRetry, beh, answered, 
                       remaining, rsSet, gt, pt, deadlinePassed, respHdr, 
                       replies, attempts, gauge, phase, err, clientGone, rheld, 
-                      retNext, ua >>
+                      npend, retNext, ua >>
 
 Send == /\ pc["w"] = "Send"
         /\ IF ~ProcessDone
@@ -400,15 +423,21 @@ Send == /\ pc["w"] = "Send"
                               THEN /\ IF ~setupRetry[cur] /\ upReset = 0
                                          THEN /\ upReset' = 1
                                               /\ reason' = "connfail"
-                                              /\ notify' = 1
+                                              /\ IF TRUE
+                                                    THEN /\ notify' = 1
+                                                         /\ npend' = npend
+                                                    ELSE /\ npend' = npend + 1
+                                                         /\ UNCHANGED notify
                                          ELSE /\ TRUE
                                               /\ UNCHANGED << upReset, reason, 
-                                                              notify >>
+                                                              notify, npend >>
                                    /\ beh' = beh
                               ELSE /\ beh' = [beh EXCEPT ![cur] = b]
-                                   /\ UNCHANGED << upReset, reason, notify >>
+                                   /\ UNCHANGED << upReset, reason, notify, 
+                                                   npend >>
               ELSE /\ TRUE
-                   /\ UNCHANGED << upReset, reason, notify, beh, attempts >>
+                   /\ UNCHANGED << upReset, reason, notify, beh, attempts, 
+                                   npend >>
         /\ pc' = [pc EXCEPT !["w"] = "Arm"]
         /\ UNCHANGED << urr, cleaned, dsReset, direct, respStarted, upDone, 
                         cur, setupRetry, answered, remaining, rsSet, gt, pt, 
@@ -430,17 +459,19 @@ Arm == /\ pc["w"] = "Arm"
                        respStarted, upDone, notify, cur, setupRetry, beh, 
                        answered, remaining, rsSet, deadlinePassed, respHdr, 
                        replies, attempts, gauge, loopI, phase, err, clientGone, 
-                       rheld, ua >>
+                       rheld, npend, ua >>
 
 Wait == /\ pc["w"] = "Wait"
         /\ notify = 1
         /\ notify' = 0
-        /\ pc' = [pc EXCEPT !["w"] = "Woken"]
+        /\ IF ~News /\ "StaleWakeEndsRequest" \notin Defects
+              THEN /\ pc' = [pc EXCEPT !["w"] = "Wait"]
+              ELSE /\ pc' = [pc EXCEPT !["w"] = "Woken"]
         /\ UNCHANGED << urr, cleaned, dsReset, upReset, reason, direct, 
                         respStarted, upDone, cur, setupRetry, beh, answered, 
                         remaining, rsSet, gt, pt, deadlinePassed, respHdr, 
                         replies, attempts, gauge, loopI, phase, err, 
-                        clientGone, rheld, retNext, ua >>
+                        clientGone, rheld, npend, retNext, ua >>
 
 Woken == /\ pc["w"] = "Woken"
          /\ retNext' = "upfilter"
@@ -449,7 +480,7 @@ Woken == /\ pc["w"] = "Woken"
                          respStarted, upDone, notify, cur, setupRetry, beh, 
                          answered, remaining, rsSet, gt, pt, deadlinePassed, 
                          respHdr, replies, attempts, gauge, loopI, phase, err, 
-                         clientGone, rheld, ua >>
+                         clientGone, rheld, npend, ua >>
 
 PE == /\ pc["w"] = "PE"
       /\ IF cleaned = 1
@@ -494,7 +525,7 @@ PE == /\ pc["w"] = "PE"
                                             rheld >>
       /\ UNCHANGED << cleaned, dsReset, reason, respStarted, upDone, notify, 
                       cur, answered, rsSet, deadlinePassed, replies, attempts, 
-                      gauge, loopI, phase, clientGone, retNext, ua >>
+                      gauge, loopI, phase, clientGone, npend, retNext, ua >>
 
 PE2 == /\ pc["w"] = "PE2"
        /\ IF dsReset = 1
@@ -555,7 +586,7 @@ PE2 == /\ pc["w"] = "PE2"
        /\ UNCHANGED << urr, dsReset, upReset, reason, respStarted, upDone, 
                        notify, cur, answered, remaining, deadlinePassed, 
                        respHdr, replies, attempts, loopI, err, clientGone, 
-                       retNext, ua >>
+                       npend, retNext, ua >>
 
 UpResetRetry == /\ pc["w"] = "UpResetRetry"
                 /\ upReset' = 0
@@ -565,7 +596,7 @@ UpResetRetry == /\ pc["w"] = "UpResetRetry"
                                 beh, answered, remaining, rsSet, gt, pt, 
                                 deadlinePassed, respHdr, replies, attempts, 
                                 gauge, loopI, phase, err, clientGone, rheld, 
-                                retNext, ua >>
+                                npend, retNext, ua >>
 
 RetryBegin == /\ pc["w"] = "RetryBegin"
               /\ TRUE
@@ -575,7 +606,7 @@ RetryBegin == /\ pc["w"] = "RetryBegin"
                               beh, answered, remaining, rsSet, gt, pt, 
                               deadlinePassed, respHdr, replies, attempts, 
                               gauge, loopI, phase, err, clientGone, rheld, 
-                              retNext, ua >>
+                              npend, retNext, ua >>
 
 RetryPool == /\ pc["w"] = "RetryPool"
              /\ IF deadlinePassed /\ "NoDeadlineCheck" \notin Defects
@@ -615,7 +646,7 @@ RetryPool == /\ pc["w"] = "RetryPool"
                              respStarted, upDone, notify, cur, beh, answered, 
                              remaining, rsSet, deadlinePassed, replies, 
                              attempts, gauge, loopI, phase, err, clientGone, 
-                             ua >>
+                             npend, ua >>
 
 RetryChosen == /\ pc["w"] = "RetryChosen"
                /\ cur' = cur + 1
@@ -629,7 +660,7 @@ RetryChosen == /\ pc["w"] = "RetryChosen"
                                answered, remaining, rsSet, gt, pt, 
                                deadlinePassed, respHdr, replies, attempts, 
                                gauge, loopI, phase, err, clientGone, rheld, 
-                               retNext, ua >>
+                               npend, retNext, ua >>
 
 UpFilter == /\ pc["w"] = "UpFilter"
             /\ retNext' = "uphdr"
@@ -673,7 +704,7 @@ UpFilter == /\ pc["w"] = "UpFilter"
             /\ UNCHANGED << cleaned, dsReset, reason, respStarted, upDone, 
                             notify, cur, answered, rsSet, deadlinePassed, 
                             replies, attempts, gauge, loopI, phase, clientGone, 
-                            ua >>
+                            npend, ua >>
 
 UpFilter2 == /\ pc["w"] = "UpFilter2"
              /\ IF dsReset = 1
@@ -724,7 +755,7 @@ UpFilter2 == /\ pc["w"] = "UpFilter2"
              /\ UNCHANGED << urr, dsReset, upReset, reason, respStarted, 
                              upDone, notify, cur, answered, remaining, 
                              deadlinePassed, respHdr, replies, attempts, loopI, 
-                             err, clientGone, retNext, ua >>
+                             err, clientGone, npend, retNext, ua >>
 
 UpHdr == /\ pc["w"] = "UpHdr"
          /\ IF ProcessDone \/ setupRetry[cur] \/ respHdr = "none"
@@ -758,7 +789,8 @@ UpHdr == /\ pc["w"] = "UpHdr"
                                                retNext >>
          /\ UNCHANGED << cleaned, dsReset, upReset, reason, direct, notify, 
                          cur, beh, answered, rsSet, gt, deadlinePassed, 
-                         attempts, gauge, loopI, phase, err, clientGone, ua >>
+                         attempts, gauge, loopI, phase, err, clientGone, npend, 
+                         ua >>
 
 EndStream == /\ pc["w"] = "EndStream"
              /\ IF cleaned = 0
@@ -781,7 +813,7 @@ EndStream == /\ pc["w"] = "EndStream"
                              respStarted, upDone, notify, cur, setupRetry, 
                              answered, remaining, rsSet, deadlinePassed, 
                              respHdr, replies, attempts, loopI, phase, err, 
-                             clientGone, retNext, ua >>
+                             clientGone, npend, retNext, ua >>
 
 FellOut == /\ pc["w"] = "FellOut"
            /\ TRUE
@@ -790,7 +822,7 @@ FellOut == /\ pc["w"] = "FellOut"
                            respStarted, upDone, notify, cur, setupRetry, beh, 
                            answered, remaining, rsSet, gt, pt, deadlinePassed, 
                            respHdr, replies, attempts, gauge, loopI, phase, 
-                           err, clientGone, rheld, retNext, ua >>
+                           err, clientGone, rheld, npend, retNext, ua >>
 
 Exit == /\ pc["w"] = "Exit"
         /\ TRUE
@@ -799,7 +831,7 @@ Exit == /\ pc["w"] = "Exit"
                         respStarted, upDone, notify, cur, setupRetry, beh, 
                         answered, remaining, rsSet, gt, pt, deadlinePassed, 
                         respHdr, replies, attempts, gauge, loopI, phase, err, 
-                        clientGone, rheld, retNext, ua >>
+                        clientGone, rheld, npend, retNext, ua >>
 
 worker == LoopTop \/ L1 \/ Send \/ Arm \/ Wait \/ Woken \/ PE \/ PE2
              \/ UpResetRetry \/ RetryBegin \/ RetryPool \/ RetryChosen
@@ -818,7 +850,7 @@ GFire == /\ pc["g"] = "GFire"
                          respStarted, upDone, notify, cur, setupRetry, beh, 
                          answered, remaining, rsSet, pt, respHdr, replies, 
                          attempts, gauge, loopI, phase, err, clientGone, rheld, 
-                         retNext, ua >>
+                         npend, retNext, ua >>
 
 GCas == /\ pc["g"] = "GCas"
         /\ IF cleaned = 1 \/ urr = 1
@@ -832,7 +864,7 @@ GCas == /\ pc["g"] = "GCas"
                         upDone, notify, cur, setupRetry, beh, answered, 
                         remaining, rsSet, pt, deadlinePassed, respHdr, replies, 
                         attempts, gauge, loopI, phase, err, clientGone, rheld, 
-                        retNext, ua >>
+                        npend, retNext, ua >>
 
 GAct == /\ pc["g"] = "GAct"
         /\ IF beh[cur] \in Behaviours
@@ -842,9 +874,13 @@ GAct == /\ pc["g"] = "GAct"
         /\ IF ~setupRetry[cur] /\ upReset = 0
               THEN /\ upReset' = 1
                    /\ reason' = "global"
-                   /\ notify' = 1
+                   /\ IF FALSE
+                         THEN /\ notify' = 1
+                              /\ npend' = npend
+                         ELSE /\ npend' = npend + 1
+                              /\ UNCHANGED notify
               ELSE /\ TRUE
-                   /\ UNCHANGED << upReset, reason, notify >>
+                   /\ UNCHANGED << upReset, reason, notify, npend >>
         /\ gt' = "off"
         /\ pc' = [pc EXCEPT !["g"] = "GDone"]
         /\ UNCHANGED << urr, cleaned, dsReset, direct, respStarted, upDone, 
@@ -859,7 +895,7 @@ GDone == /\ pc["g"] = "GDone"
                          respStarted, upDone, notify, cur, setupRetry, beh, 
                          answered, remaining, rsSet, gt, pt, deadlinePassed, 
                          respHdr, replies, attempts, gauge, loopI, phase, err, 
-                         clientGone, rheld, retNext, ua >>
+                         clientGone, rheld, npend, retNext, ua >>
 
 gtimer == GFire \/ GCas \/ GAct \/ GDone
 
@@ -874,7 +910,7 @@ PFire == /\ pc["p"] = "PFire"
                          respStarted, upDone, notify, cur, setupRetry, beh, 
                          answered, remaining, rsSet, gt, deadlinePassed, 
                          respHdr, replies, attempts, gauge, loopI, phase, err, 
-                         clientGone, rheld, retNext, ua >>
+                         clientGone, rheld, npend, retNext, ua >>
 
 PCas == /\ pc["p"] = "PCas"
         /\ IF cleaned = 1 \/ urr = 1
@@ -888,7 +924,7 @@ PCas == /\ pc["p"] = "PCas"
                         upDone, notify, cur, setupRetry, beh, answered, 
                         remaining, rsSet, gt, deadlinePassed, respHdr, replies, 
                         attempts, gauge, loopI, phase, err, clientGone, rheld, 
-                        retNext, ua >>
+                        npend, retNext, ua >>
 
 PAct == /\ pc["p"] = "PAct"
         /\ IF ~respStarted
@@ -899,11 +935,15 @@ PAct == /\ pc["p"] = "PAct"
                    /\ IF ~setupRetry[cur] /\ upReset = 0
                          THEN /\ upReset' = 1
                               /\ reason' = "pertry"
-                              /\ notify' = 1
+                              /\ IF FALSE
+                                    THEN /\ notify' = 1
+                                         /\ npend' = npend
+                                    ELSE /\ npend' = npend + 1
+                                         /\ UNCHANGED notify
                          ELSE /\ TRUE
-                              /\ UNCHANGED << upReset, reason, notify >>
+                              /\ UNCHANGED << upReset, reason, notify, npend >>
               ELSE /\ TRUE
-                   /\ UNCHANGED << upReset, reason, notify, beh >>
+                   /\ UNCHANGED << upReset, reason, notify, beh, npend >>
         /\ pt' = "off"
         /\ pc' = [pc EXCEPT !["p"] = "PAgain"]
         /\ UNCHANGED << urr, cleaned, dsReset, direct, respStarted, upDone, 
@@ -917,7 +957,7 @@ PAgain == /\ pc["p"] = "PAgain"
                           respStarted, upDone, notify, cur, setupRetry, beh, 
                           answered, remaining, rsSet, gt, pt, deadlinePassed, 
                           respHdr, replies, attempts, gauge, loopI, phase, err, 
-                          clientGone, rheld, retNext, ua >>
+                          clientGone, rheld, npend, retNext, ua >>
 
 PDone == /\ pc["p"] = "PDone"
          /\ TRUE
@@ -926,7 +966,7 @@ PDone == /\ pc["p"] = "PDone"
                          respStarted, upDone, notify, cur, setupRetry, beh, 
                          answered, remaining, rsSet, gt, pt, deadlinePassed, 
                          respHdr, replies, attempts, gauge, loopI, phase, err, 
-                         clientGone, rheld, retNext, ua >>
+                         clientGone, rheld, npend, retNext, ua >>
 
 ptimer == PFire \/ PCas \/ PAct \/ PAgain \/ PDone
 
@@ -946,7 +986,7 @@ UIdle == /\ pc["u"] = "UIdle"
                          respStarted, upDone, notify, cur, setupRetry, beh, 
                          remaining, rsSet, gt, pt, deadlinePassed, respHdr, 
                          replies, attempts, gauge, loopI, phase, err, 
-                         clientGone, rheld, retNext >>
+                         clientGone, rheld, npend, retNext >>
 
 UGuard == /\ pc["u"] = "UGuard"
           /\ IF ProcessDone \/ setupRetry[ua]
@@ -956,7 +996,7 @@ UGuard == /\ pc["u"] = "UGuard"
                           respStarted, upDone, notify, cur, setupRetry, beh, 
                           answered, remaining, rsSet, gt, pt, deadlinePassed, 
                           respHdr, replies, attempts, gauge, loopI, phase, err, 
-                          clientGone, rheld, retNext, ua >>
+                          clientGone, rheld, npend, retNext, ua >>
 
 UCas == /\ pc["u"] = "UCas"
         /\ IF urr = 0
@@ -969,16 +1009,20 @@ UCas == /\ pc["u"] = "UCas"
         /\ UNCHANGED << cleaned, dsReset, upReset, reason, direct, respStarted, 
                         upDone, cur, setupRetry, beh, answered, remaining, 
                         rsSet, gt, pt, deadlinePassed, replies, attempts, 
-                        gauge, loopI, phase, err, clientGone, rheld, retNext, 
-                        ua >>
+                        gauge, loopI, phase, err, clientGone, rheld, npend, 
+                        retNext, ua >>
 
 UReset == /\ pc["u"] = "UReset"
           /\ IF ~setupRetry[ua] /\ upReset = 0
                 THEN /\ upReset' = 1
                      /\ reason' = "close"
-                     /\ notify' = 1
+                     /\ IF FALSE
+                           THEN /\ notify' = 1
+                                /\ npend' = npend
+                           ELSE /\ npend' = npend + 1
+                                /\ UNCHANGED notify
                 ELSE /\ TRUE
-                     /\ UNCHANGED << upReset, reason, notify >>
+                     /\ UNCHANGED << upReset, reason, notify, npend >>
           /\ pc' = [pc EXCEPT !["u"] = "UIdle"]
           /\ UNCHANGED << urr, cleaned, dsReset, direct, respStarted, upDone, 
                           cur, setupRetry, beh, answered, remaining, rsSet, gt, 
@@ -993,9 +1037,25 @@ UDone == /\ pc["u"] = "UDone"
                          respStarted, upDone, notify, cur, setupRetry, beh, 
                          answered, remaining, rsSet, gt, pt, deadlinePassed, 
                          respHdr, replies, attempts, gauge, loopI, phase, err, 
-                         clientGone, rheld, retNext, ua >>
+                         clientGone, rheld, npend, retNext, ua >>
 
 upstream == UIdle \/ UGuard \/ UCas \/ UReset \/ UDone
+
+NLoop == /\ pc["n"] = "NLoop"
+         /\ npend > 0 \/ pc["w"] \in {"Exit", "FellOut", "Done"}
+         /\ IF npend > 0
+               THEN /\ npend' = npend - 1
+                    /\ notify' = 1
+                    /\ pc' = [pc EXCEPT !["n"] = "NLoop"]
+               ELSE /\ pc' = [pc EXCEPT !["n"] = "Done"]
+                    /\ UNCHANGED << notify, npend >>
+         /\ UNCHANGED << urr, cleaned, dsReset, upReset, reason, direct, 
+                         respStarted, upDone, cur, setupRetry, beh, answered, 
+                         remaining, rsSet, gt, pt, deadlinePassed, respHdr, 
+                         replies, attempts, gauge, loopI, phase, err, 
+                         clientGone, rheld, retNext, ua >>
+
+notifier == NLoop
 
 CGone == /\ pc["c"] = "CGone"
          /\ \/ /\ cleaned = 0
@@ -1011,8 +1071,8 @@ CGone == /\ pc["c"] = "CGone"
          /\ UNCHANGED << urr, cleaned, upReset, reason, direct, respStarted, 
                          upDone, cur, setupRetry, beh, answered, remaining, 
                          rsSet, gt, pt, deadlinePassed, respHdr, replies, 
-                         attempts, gauge, loopI, phase, err, rheld, retNext, 
-                         ua >>
+                         attempts, gauge, loopI, phase, err, rheld, npend, 
+                         retNext, ua >>
 
 client == CGone
 
@@ -1020,7 +1080,7 @@ client == CGone
 Terminating == /\ \A self \in ProcSet: pc[self] = "Done"
                /\ UNCHANGED vars
 
-Next == worker \/ gtimer \/ ptimer \/ upstream \/ client
+Next == worker \/ gtimer \/ ptimer \/ upstream \/ notifier \/ client
            \/ Terminating
 
 Spec == /\ Init /\ [][Next]_vars
@@ -1028,6 +1088,7 @@ Spec == /\ Init /\ [][Next]_vars
         /\ WF_vars(gtimer)
         /\ WF_vars(ptimer)
         /\ WF_vars(upstream)
+        /\ WF_vars(notifier)
 
 Termination == <>(\A self \in ProcSet: pc[self] = "Done")
 
